@@ -1,5 +1,123 @@
+import CotengraVerif.Lemmas.SoundRun
 import CotengraVerif.Model.Recipes
 
-/-! # C01 (work in progress: interface first, theorems follow) -/
+/-!
+# C01 — contracting with any tree gives the einsum value, in the declared axis order
+
+(work in progress: `admissible_sound` first)
+-/
 namespace Cotengra.C01
+open Cotengra Cotengra.Net
+
+section
+variable {R : Type} [CommSemiring R]
+
+/-- the operand family of a list of arrays -/
+def operands (arrays : List (Arr R)) : Nat → Arr R :=
+  fun i => arrays.getD i { shape := [], val := fun _ => 0 }
+
+/-- the arrays have the shapes the (sliced) terms declare -/
+def WellShaped (n : Net) (rm : List Ix) (arrays : List (Arr R)) : Prop :=
+  arrays.length = n.inputs.length ∧
+    ∀ i (h : i < arrays.length), (arrays[i]).shape = (n.termRm rm i).map n.size
+
+/-- what it means for an array to be the einsum of the network in the declared axis order:
+    its shape is that of the declared output (minus removed indices) and its entry at the
+    position an index assignment `σ` gives to the output axes is `einsumSpec σ`. -/
+def IsEinsum (n : Net) (rm : List Ix) (arrays : List (Arr R)) (res : Arr R) : Prop :=
+  res.shape = (n.outRm rm).map n.size ∧
+    ∀ σ : Ix → Nat, res.val ((n.outRm rm).map σ) = n.einsumSpec rm (operands arrays) σ
+
+/-- **Soundness of the certificate check (tree-free core).** -/
+theorem admissibleCore_sound (n : Net) (rm : List Ix) (prog : Program) (arrays : List (Arr R))
+    (hw : WellShaped n rm arrays) (ha : AdmissibleCore n rm prog = true) :
+    ∃ res, run prog arrays = .ok res ∧ IsEinsum n rm arrays res := by
+  obtain ⟨hlen, hshape⟩ := hw
+  have hA : ∀ i (h : i < arrays.length), operands arrays i = arrays[i] := by
+    intro i h
+    simp [operands, List.getD_eq_getElem?_getD, h]
+  unfold AdmissibleCore checkCore at ha
+  split at ha
+  · rename_i u hcore
+    split at hcore
+    · cases hcore
+    · rename_i cs1 hpre
+      split at hcore
+      · cases hcore
+      · rename_i cs2 hsteps
+        -- final clause
+        unfold checkFinal at hcore
+        split at hcore
+        · cases hcore
+        · rename_i hne
+          split at hcore
+          · rename_i k ax
+            split at hcore
+            · cases hcore
+            · rename_i hs0
+              split at hcore
+              · cases hcore
+              · rename_i hax0
+                have hs : sameSet k (List.range n.inputs.length) = true := of_not_not_true hs0
+                have hax : ax = n.outRm rm := by
+                  by_contra hc
+                  exact hax0 (by simpa using hc)
+                subst hax
+                have hrel0 := init_rel n rm arrays (operands arrays) hlen hA hshape
+                have hk0 : (keysOf (n.initAxes rm)).Nodup := by
+                  rw [keysOf_init]; exact List.nodup_range
+                obtain ⟨rs1, hr1, hrel1, hk1⟩ :=
+                  checkPre_sound n rm (operands arrays) prog.pre _ _ hrel0 hk0 cs1 hpre
+                obtain ⟨rs2, last, hr2, hrel2, _, hlast⟩ :=
+                  checkSteps_sound n rm (operands arrays) prog.steps _ _ none hrel1 hk1 _ hsteps
+                have hsne : prog.steps ≠ [] := by
+                  intro e
+                  rw [e] at hne
+                  simp at hne
+                obtain ⟨k', a, rest, hrs, hl⟩ := hlast (Or.inr hsne)
+                subst hrs
+                cases hrel2 with
+                | cons hhead htail =>
+                  cases htail
+                  obtain ⟨hkk, inv⟩ := hhead
+                  simp only at hkk inv
+                  subst hl
+                  refine ⟨a, ?_, inv.shape, ?_⟩
+                  · simp only [run, hr1, hr2]
+                  · intro σ
+                    rw [inv.val σ]
+                    unfold Net.einsumSpec
+                    have hperm : k.Perm (List.range n.inputs.length) := by
+                      rw [List.perm_ext_iff_of_nodup inv.nodup List.nodup_range]
+                      exact (sameSet_iff _ _).1 hs
+                    have hm : (n.missing rm k (n.outRm rm)).Perm (n.summedIx rm) := by
+                      unfold Net.missing Net.summedIx
+                      apply List.Perm.filter
+                      rw [List.perm_ext_iff_of_nodup (occL_nodup n rm _) (occL_nodup n rm _)]
+                      exact occL_perm_mem n rm hperm
+                    rw [sumOver_perm n.size hm (missing_nodup n rm _ _)]
+                    apply sumOver_congr
+                    intro τ
+                    exact prodS_perm n rm _ hperm τ
+          · cases hcore
+  · cases ha
+
+/-- **`admissible_sound`.**  A program accepted by `Admissible` (for *any* tree argument), run by
+    the interpreter on well-shaped arrays over any commutative semiring, does not raise and
+    returns the einsum of the network with axes = the declared output, in the declared order. -/
+theorem admissible_sound (n : Net) (rm : List Ix) (t : BT) (prog : Program)
+    (arrays : List (Arr R)) (hw : WellShaped n rm arrays) (ha : Admissible n rm t prog = true) :
+    ∃ res, run prog arrays = .ok res ∧ IsEinsum n rm arrays res := by
+  apply admissibleCore_sound n rm prog arrays hw
+  unfold Admissible checkProgram at ha
+  unfold AdmissibleCore
+  split at ha
+  · rename_i u h
+    split at h
+    · cases h
+    · rename_i hc
+      rw [hc]
+  · cases ha
+
+end
 end Cotengra.C01
